@@ -97,6 +97,25 @@ func plans(prop string, thorough bool, seed int64) []plan {
 			}
 		}
 	}
+	// scenarios around non-synchronous base schedules
+	for _, pp := range policyPlans(thorough) {
+		k := 1
+		t := 20 * time.Second
+		if thorough {
+			k, t = 2, 3*time.Minute
+		}
+		var m Mode
+		if prop == "C06" {
+			if pp.pol.Kind != "lag" {
+				continue // a partition that never heals is outside the premise of C06
+			}
+			m = livenessMode(pp.pol.String(), pp.byz)
+		} else {
+			m = safetyMode(prop, pp.pol.String(), pp.byz)
+		}
+		m.Policy = pp.pol
+		out = append(out, plan{pp.sc, m, k, t})
+	}
 	return out
 }
 
